@@ -278,6 +278,12 @@ const CONTEXTS: &[(&str, &[u8], &[u8], Ctxt, u8)] = &[
     ("string-after-hex-escape", b"\"\\x3bb;", b"\"", Ctxt::InToken, 1),
     ("string-between-escapes", b"\"\\\\", b"\\\"\"", Ctxt::InToken, 0),
     ("string-after-multibyte", "\"λ".as_bytes(), b"\"", Ctxt::InToken, 0),
+    // ill-formed bytes early in a string that continues with several escapes and plain text
+    ("string-before-two-escapes", b"\"", b"\\n\\n\"", Ctxt::InToken, 0),
+    ("string-before-escapes-and-text", b"\"caf", b" \\t au lait\\n please\"", Ctxt::InToken, 0),
+    ("string-between-escape-pairs", b"\"\\n\\n", b"\\t\\t x\\\\y\"", Ctxt::InToken, 0),
+    ("string-before-three-hex-escapes", b"\"", b"\\x41;\\x42;\\x43;z\"", Ctxt::InToken, 1),
+    ("elisp-string-before-escapes", b"\"", b"\\101\\n\\tz\"", Ctxt::InToken, 2),
     ("elisp-string-after-u-escape", b"\"\\u00e9", b"\"", Ctxt::InToken, 2),
     ("elisp-string-after-x-escape", b"\"\\x41", b"\"", Ctxt::InToken, 2),
     ("elisp-string-after-octal", b"\"\\101", b"\"", Ctxt::InToken, 2),
